@@ -226,6 +226,62 @@ class VLock(object):
         self.release()
 
 
+class VRLock(VLock):
+    """Re-entrant variant (stand-in for threading.RLock)."""
+
+    def __init__(self):
+        VLock.__init__(self)
+        self.count = 0
+
+    def _me(self):
+        s = VLock.sched
+        t = s.me() if s is not None else None
+        return t.tid if t is not None else "main"
+
+    def acquire(self, blocking=True, timeout=-1):
+        if self.owner is not None and self.owner == self._me():
+            self.count += 1
+            return True
+        ok = VLock.acquire(self, blocking, timeout)
+        if ok:
+            self.count = 1
+        return ok
+
+    def release(self):
+        if self.owner is None or self.owner != self._me():
+            raise RuntimeError("cannot release un-acquired lock")
+        self.count -= 1
+        if self.count == 0:
+            VLock.release(self)
+
+    __enter__ = acquire
+
+    def __exit__(self, *a):
+        self.release()
+
+    def _is_owned(self):
+        return self.owner is not None and self.owner == self._me()
+
+
+_REAL = {"Lock": threading.Lock, "RLock": threading.RLock}
+
+
+def virtual_locks_on(sched):
+    """From now on every threading.Lock() / threading.RLock() created in this process is a virtual one whose operations are
+    scheduling points of `sched` (a lock the code under test creates - per object, per module - must not block a real thread while
+    the token scheduler serialises the threads: that would hang the run instead of showing the schedule).  The scheduler's own
+    primitives must exist already."""
+    VLock.sched = sched
+    threading.Lock = VLock
+    threading.RLock = VRLock
+
+
+def virtual_locks_off():
+    threading.Lock = _REAL["Lock"]
+    threading.RLock = _REAL["RLock"]
+    VLock.sched = None
+
+
 class ShimThreading(object):
     """Module-like object exposing Lock = VLock, everything else from threading."""
     Lock = VLock
